@@ -309,6 +309,12 @@ def prepare(tier):
     pass
 
 
+class DriverCrashed(Exception):
+    def __init__(self, rc, lines):
+        super().__init__(f"generated driver exit status {rc}")
+        self.rc, self.lines = rc, lines
+
+
 class CppLeg:
     def __init__(self, schedule):
         d, cfg = schedule["model"], schedule["config"]
@@ -333,11 +339,14 @@ class CppLeg:
         ok, err = cppbuild.compile_cpp([drv, source], self.bin, extra_inc=[os.path.join(self.dir, "generated")])
         if not ok:
             self.error, self.stage = err, "compile"
+            # does the generated translation unit compile on its own (without the runtime and the driver)?
+            ok2, err2 = cppbuild.compile_cpp(["-c", source], os.path.join(self.dir, "m.o"), extra_inc=[os.path.join(self.dir, "generated")])
+            self.generated_alone_ok, self.generated_alone_err = ok2, err2
 
     def run(self, lines):
         cp = subprocess.run([self.bin], input="\n".join(lines) + "\n", capture_output=True, text=True, timeout=120)
         if cp.returncode != 0:
-            raise RuntimeError(f"generated driver rc={cp.returncode}: {cp.stderr[-300:]}")
+            raise DriverCrashed(cp.returncode, cp.stdout.splitlines())
         return cp.stdout.splitlines()
 
     def close(self):
@@ -371,6 +380,8 @@ def execute(schedule) -> Result:
                 res.add("C12", "generate", f"C12:cpp:generate:{combo}", 0, "the generator produces a filter", leg.error, "cpp")
             else:
                 res.add("C12", "compile", f"C12:cpp:compile:{combo}", 0, f"generated filter + ManagedFilter<ExtendedKalmanFilter> ({combo}, {len(d['sensors'])} sensors) compiles: construction, tick with and without readings, compatibility static_assert", leg.error, "cpp")
+                if not getattr(leg, "generated_alone_ok", True):
+                    res.add("C07", "generated_code_does_not_compile", "C07:cpp:generated_code_does_not_compile", 0, "the generated C++ filter compiles (on its own, without runtime and driver) and computes what the Python filter computes", leg.generated_alone_err, "cpp")
             res.truncated = "cpp_unavailable"
             return res
         _lockstep(schedule, leg, res)
@@ -510,7 +521,13 @@ def _lockstep(schedule, leg, res):
     for nop in schedule.get("nis_ops", []):
         m = nop["m"]
         lines.append(f"NIS {m} {fx(xf(nop['k']))} " + " ".join(fx(xf(v)) for v in nop["z"]) + " " + " ".join(fx(xf(v)) for row in nop["Sinv"] for v in row))
-    out_lines = leg.run(lines)
+    try:
+        out_lines = leg.run(lines)
+    except DriverCrashed as e:
+        combo = f"control={int(bool(d['control']))}&calibration={int(bool(d['calibration']))}"
+        res.add("C12", "driver_crashed", f"C12:cpp:driver_crashed:{combo}", len(e.lines), "ticking the generated filter through the runtime returns (the same as the by-hand calls)", f"the driver process died with status {e.rc} after {len(e.lines)} output lines (the recording subclass, readings wrapped from temporaries and from lvalues)", "cpp")
+        res.truncated = "driver_crashed"
+        return
     res.log.extend(out_lines)
     _compare(schedule, expect, out_lines, res, n, S)
 
